@@ -18,7 +18,8 @@ META = {
 def run(ctx):
     return sworld.run_static(
         ctx, "C17", 1,
-        variants=[{"impl": "compact-split", "cores": 2, "split": 1}, {"impl": "compact-split", "cores": 1, "split": 2}],
+        variants=[{"impl": "compact-split", "cores": 2, "split": 1, "max": (24, 300)},
+                  {"impl": "compact-split", "cores": 1, "split": 2, "max": (12, 150)}],
         sections=["lookup", "search", "each", "problems", "build", "observe"],
         rule="every source TLC enumerates for scenario 1 built as 2 and as 4 merged compact files; distinct = (split, source)",
         max_cases=ctx.pick(400, None))
